@@ -223,6 +223,8 @@ pub struct Env {
     pub counting: bool,
     /// Strict mode (replay): known findings are reported as failures with their signature.
     pub strict: bool,
+    /// Where to note the case about to run (properties for which a hang / abort is the violation).
+    pub track_path: Option<std::path::PathBuf>,
 }
 
 impl Env {
@@ -233,6 +235,7 @@ impl Env {
             stats: Stats::default(),
             counting: true,
             strict: false,
+            track_path: None,
         }
     }
 
@@ -267,6 +270,16 @@ impl Env {
         }
     }
 
+    /// Notes the concrete case that is about to be handed to the library, so that the parent can
+    /// report it if this process hangs or dies; also restarts the per-case watchdog.
+    pub fn track(&mut self, make: impl FnOnce() -> ReplayFile) {
+        CASE_STARTED.store(now_secs(), std::sync::atomic::Ordering::Relaxed);
+        if let Some(path) = &self.track_path {
+            let replay = make();
+            let _ = std::fs::write(path, serde_json::to_vec(&replay).unwrap_or_default());
+        }
+    }
+
     pub fn note(&mut self, name: &str) {
         if self.counting {
             *self.stats.notes.entry(name.to_string()).or_insert(0) += 1;
@@ -277,4 +290,13 @@ impl Env {
 pub fn ops_sample(ops: &[COp]) -> Value {
     let list: Vec<String> = ops.iter().map(|op| op.short()).collect();
     json!(list)
+}
+
+pub static CASE_STARTED: std::sync::atomic::AtomicU64 = std::sync::atomic::AtomicU64::new(0);
+
+pub fn now_secs() -> u64 {
+    // monotonic seconds since the first call (only used by the hang watchdog)
+    use std::sync::OnceLock;
+    static START: OnceLock<std::time::Instant> = OnceLock::new();
+    START.get_or_init(std::time::Instant::now).elapsed().as_secs() + 1
 }
